@@ -38,6 +38,13 @@ CMP = {ast.Lt: ast.LtE, ast.LtE: ast.Lt, ast.Gt: ast.GtE, ast.GtE: ast.Gt, ast.E
 BIN = {ast.Add: ast.Sub, ast.Sub: ast.Add}
 CALLS = {"And": "Or", "Or": "And", "PbGe": "PbLe", "PbLe": "PbGe", "Implies": "And"}
 DROP = {"append_z3_assertion", "set_z3_assertions", "append_z3_list_of_assertions"}
+# a sibling taken for the other one (attribute or local name)
+SWAP = {}
+for _a, _b in (("_start", "_end"), ("task_before", "task_after"), ("min_duration", "max_duration"), ("release_date", "due_date"),
+               ("delay_in", "early_out"), ("lower_bound", "upper_bound"), ("interv_low", "interv_up"), ("start_task_i", "end_task_i"),
+               ("start_task_k", "end_task_k"), ("sorted_starts", "sorted_ends"), ("initial_level", "final_level"), ("start_time", "end_time"),
+               ("_unloading_tasks", "_loading_tasks"), ("interval_lower_bound", "interval_upper_bound"), ("time_interval_lower_bound", "time_interval_upper_bound")):
+    SWAP[_a], SWAP[_b] = _b, _a
 
 
 class Collector(ast.NodeVisitor):
@@ -63,6 +70,10 @@ class Collector(ast.NodeVisitor):
                 self.sites.append(("drop", node.lineno, node.col_offset, where))
             elif isinstance(node, ast.BoolOp):
                 self.sites.append(("boolop", node.lineno, node.col_offset, where))
+            elif isinstance(node, ast.Attribute) and node.attr in SWAP and isinstance(node.ctx, ast.Load):
+                self.sites.append(("swapattr", node.lineno, node.col_offset, where))
+            elif isinstance(node, ast.Name) and node.id in SWAP and isinstance(node.ctx, ast.Load):
+                self.sites.append(("swapname", node.lineno, node.col_offset, where))
             super().generic_visit(node)
         if isinstance(node, (ast.FunctionDef, ast.ClassDef)):
             self.stack.pop()
@@ -111,6 +122,19 @@ class Mutator(ast.NodeTransformer):
             self.done = f"dropped {node.value.func.attr}(...)"
             return ast.copy_location(ast.Pass(), node)
         self.generic_visit(node)
+        return node
+
+    def visit_Attribute(self, node):
+        self.generic_visit(node)
+        if self.kind == "swapattr" and self._hit(node):
+            self.done = f".{node.attr} -> .{SWAP[node.attr]}"
+            node.attr = SWAP[node.attr]
+        return node
+
+    def visit_Name(self, node):
+        if self.kind == "swapname" and self._hit(node):
+            self.done = f"{node.id} -> {SWAP[node.id]}"
+            return ast.copy_location(ast.Name(id=SWAP[node.id], ctx=node.ctx), node)
         return node
 
     def visit_BoolOp(self, node):
